@@ -70,3 +70,29 @@ Fixpoint bad_cases (cs : seq case) (i : nat) : seq nat :=
   | c :: r => let code := check c in
               if code == 0 then bad_cases r i.+1 else (i * 8 + code) :: bad_cases r i.+1
   end.
+
+(* ------------------------------------------------------------------ CIQ broadcast (ModelBatch.t_expand_lead)
+   what contour_integral_quad handed to MINRES for a right-hand side with an extra leading sample axis
+   (W:(Q,k,B), S:(Q+1,k,B)) against the rule it builds for the first slice alone (w:(Q,B), sh:(Q+1,B)) *)
+Require Import C18.ModelBatch.
+
+Record ciqcase := MkCiq {
+  q_Q : nat; q_k : nat; q_B : nat;
+  q_w : seq float; q_sh : seq float;
+  q_W : seq float; q_S : seq float;
+  q_tol : float
+}.
+
+(* 0 = agreement; 1 sizes of the per-member rule; 2 weights; 3 shifts *)
+Definition check_ciq (c : ciqcase) : nat :=
+  if ~~ ((size (q_w c) == q_Q c * q_B c) && (size (q_sh c) == (q_Q c).+1 * q_B c)) then 1
+  else if ~~ all_close (q_tol c) (t_expand_lead ArF (q_Q c) (q_k c) (q_B c) (q_w c)) (q_W c) then 2
+  else if ~~ all_close (q_tol c) (t_expand_lead ArF (q_Q c).+1 (q_k c) (q_B c) (q_sh c)) (q_S c) then 3
+  else 0.
+
+Fixpoint bad_ciq (cs : seq ciqcase) (i : nat) : seq nat :=
+  match cs with
+  | [::] => [::]
+  | c :: r => let code := check_ciq c in
+              if code == 0 then bad_ciq r i.+1 else (i * 8 + code) :: bad_ciq r i.+1
+  end.
